@@ -173,6 +173,9 @@ def end_to_end(ck, rng, thorough):
                     secs.append(pelbuild.UD(bytes(rng.randrange(256) for _ in range(rng.randrange(1, 40))), sub=2))
                 files.append(('pel_%d_%d' % (rnd, i), pelbuild.pel(secs, eid=0x50000100 + 16 * rnd + i)))
             if rnd == 0 or rng.random() < 0.3:
+                # JSON user data with characters no output encoding takes as they are (a lone surrogate, written as an escape in the source), and astral ones
+                files.append(('pel_%d_%08X_surrogate' % (rnd, 0x50000B00 + rnd), pelbuild.pel([pelbuild.UH(), pelbuild.UD(b'{"half": "\\ud83d", "k\\udc00": ["\\ud800x", "\xf0\x9f\x98\x80", "\xc3\xa9"]}', sub=1)],
+                                                                                      eid=0x50000B00 + rnd)))
                 # a PEL whose printed text is longer than 64 KiB (one large section without a decoder), and one whose parser modules fail
                 big = bytes(rng.randrange(256) for _ in range(rng.choice([14000, 20000, 40000])))
                 files.append(('pel_%d_%08X_big' % (rnd, 0x50000900 + rnd), pelbuild.pel([pelbuild.UH(), pelbuild.UD(big, sub=9, comp=0x7777), pelbuild.UD(b'after the large one', sub=3)],
@@ -219,6 +222,47 @@ def end_to_end(ck, rng, thorough):
                         ok = False
                     if not ok:
                         ck.fail('the text printed by %s does not parse back to the decoded document' % argv[0], rp | {'argv': argv, 'stdout': so[:300]}, 'e2e_lookup')
+            # the same through real interpreters whose stdout takes ASCII only / is a C-locale stream: the printed text is still one JSON document
+            # that parses back to the decoded documents (whatever characters the logs contain)
+            if rnd == 0 or rng.random() < 0.3:
+                # (separate interpreters do not have this run's fixture parser modules: the PEL that needs them stays out)
+                names_all, names = names, [n for n in names if dict(files)[n][24:25] != b'x']
+                d_all, d = d, clirun.make_dir([(n, b) for n, b in files if b[24:25] != b'x'], base=tmp)
+                for envx in ({'PYTHONIOENCODING': 'ascii'}, {'PYTHONIOENCODING': 'latin-1', 'LC_ALL': 'C'}):
+                    so, se, sx = clirun.run_sub(['-p', d, '-a', '-E'], env_extra=envx)
+                    ck.count('end-to-end -a with stdout encoding %s' % envx['PYTHONIOENCODING'])
+                    try:
+                        ok = json.loads(so) == [want[n][1] for n in names]
+                    except Exception:
+                        ok = False
+                    if not ok or sx != 0:
+                        ck.fail('with a stdout that takes %s only, the text printed by -a does not parse back to the list of decoded documents' % envx['PYTHONIOENCODING'],
+                                rp | {'argv': ['-a'], 'environment': envx, 'exit': sx, 'stdout': so[:300], 'stderr': se[-300:]}, 'e2e_encoding')
+                    od = clirun.make_dir([], base=tmp)
+                    clirun.run_sub(['-p', d, '-j', '-o', od, '-E'], env_extra=envx)
+                    for n in names:
+                        path = os.path.join(od, '%s.%s.json' % (n, want[n][0]))
+                        try:
+                            ok = json.load(open(path, encoding='utf-8')) == want[n][1]
+                        except Exception:
+                            ok = False
+                        if not ok:
+                            ck.fail('with a %s locale the file written by -j does not parse back to the decoded document' % envx['PYTHONIOENCODING'],
+                                    rp | {'argv': ['-j'], 'environment': envx, 'file': os.path.basename(path)}, 'e2e_encoding')
+                            break
+                names, d = names_all, d_all
+            # a file that holds a complete second PEL after the first one: -f shows ONE document (the PEL the file starts with)
+            if len(names) >= 2:
+                two = os.path.join(tmp, 'two_in_one_%d' % rnd)
+                open(two, 'wb').write(dict(files)[names[0]] + dict(files)[names[1]])
+                so, se, sx = clirun.run_main(['-f', two, '-E'])
+                ck.count('end-to-end -f on a file with a second PEL behind the first')
+                try:
+                    ok = json.loads(so) == want[names[0]][1]
+                except Exception:
+                    ok = False
+                if not ok:
+                    ck.fail('the text printed by -f for a file with trailing bytes (a second PEL) is not the one decoded document', rp | {'argv': ['-f', '<first + second>'], 'stdout': so[:300]}, 'e2e_file')
             # -a
             so, se, sx = clirun.run_main(['-p', d, '-a', '-E'])
             ck.case(key=('-a', tuple(files)))
